@@ -81,7 +81,7 @@ def run(tier: str, seed: int, rep: Report, model: Model) -> dict:
             rec["reference"] = ref
             if im["v"] == "harness":
                 rep.violation({"what": "the call did not finish", **rec})
-            elif im["v"] == "accept" and ref["v"] != "accept":
+            elif im["v"] == "accept" and ref["v"] not in ("accept", "unknown"):
                 rep.violation({"what": "accepted although a tensor next to a skipped None violates its annotation (or None was given to a non-optional hint)", **rec})
             elif ref["v"] == "accept" and im["v"] not in ("accept", "identity"):
                 rep.violation({"what": "rejected although every non-None value conforms", **rec})
